@@ -9,6 +9,7 @@ import itertools
 import z3
 
 from symx import core
+from symx import symnp
 from symx.core import S, SB
 from symx.harness import Harness, mv
 
@@ -62,6 +63,10 @@ def tasks(tier):
                 ts.append({'fn': 'dist', 'n': a, 'm': b})
     for k in (1, 2, 3):
         ts.append({'fn': 'aggregate', 'k': k})
+    # sequences mixing strings and integers: every kind pattern for lengths <= 2 (codes symbolic)
+    for n_, m_ in ((1, 1), (2, 1), (1, 2), (2, 2)):
+        for kinds in itertools.product('si', repeat=n_ + m_):
+            ts.append({'fn': 'mixed', 'n': n_, 'm': m_, 'kinds': ''.join(kinds)})
     # big tasks first
     ts.sort(key=lambda t: -(t.get('n', 0) + 1) * (t.get('m', 0) + 1))
     return ts
@@ -122,10 +127,96 @@ def _same(xs, ys):
     return z3.And(*conj) if conj else True
 
 
+class Sym:
+    """a sequence element that is either a Python str or a Python int (kind concrete, identity symbolic)"""
+
+    def __init__(self, kind, code, coerced=False):
+        self.kind, self.code, self.coerced = kind, code, coerced
+
+    def __eq__(self, o):
+        if not isinstance(o, Sym):
+            return False
+        if self.kind != o.kind:
+            return False          # 'x' == 1 is False in Python and element-wise in numpy
+        if self.coerced != o.coerced:
+            # str(int) against an original string: equal only if the string is that numeral -- a different (symbolic) question;
+            # kept distinct here: the harness assumes original strings are not numerals
+            return False
+        return core.SB(self.code == o.code)
+
+    def __ne__(self, o):
+        r = self.__eq__(o)
+        return core.b_not(r)
+
+    def __hash__(self):
+        return 5
+
+
+class _NpCoerce:
+    """numpy facade with numpy's array-construction rule for mixed lists: str + int elements are all converted to str"""
+
+    def __getattr__(self, name):
+        return getattr(symnp, name)
+
+    def array(self, x, dtype=None, copy=True):
+        if isinstance(x, (list, tuple)) and x and all(isinstance(v, Sym) for v in x):
+            kinds = {v.kind for v in x}
+            if dtype is None and kinds == {'s', 'i'}:
+                x = [v if v.kind == 's' else Sym('s', v.code, coerced=True) for v in x]
+            return symnp.A(list(x), (len(x),))
+        return symnp.array(x, dtype, copy)
+
+
+def _run_mixed(H, sa, task):
+    n, m, kinds = task['n'], task['m'], task['kinds']
+    sa.np = _NpCoerce()
+    src = [Sym(kinds[i], z3.Int('s%d' % i)) for i in range(n)]
+    tgt = [Sym(kinds[n + j], z3.Int('t%d' % j)) for j in range(m)]
+
+    def case(m_, **kw):
+        c = {'fn': 'mixed', 'kinds': kinds, 'n': n, 'm': m, 'source': [mv(m_, S(x.code)) for x in src], 'target': [mv(m_, S(x.code)) for x in tgt]}
+        c.update(kw)
+        return c
+
+    def eqz(a, b):
+        return z3.And(a.code == b.code) if a.kind == b.kind else z3.BoolVal(False)
+    D = [[None] * (m + 1) for _ in range(n + 1)]
+    for j in range(m + 1):
+        D[0][j] = z3.IntVal(j)
+    for i in range(1, n + 1):
+        D[i][0] = z3.IntVal(i)
+        for j in range(1, m + 1):
+            a, b = D[i - 1][j] + 1, D[i][j - 1] + 1
+            c = D[i - 1][j - 1] + z3.If(eqz(src[i - 1], tgt[j - 1]), 0, 1)
+            mn = z3.If(a <= b, a, b)
+            D[i][j] = z3.If(mn <= c, mn, c)
+    ref = D[n][m]
+
+    def body():
+        d = sa.levenshtein_distance(list(src), list(tgt))
+        al = sa.levenshtein_alignment(list(src), list(tgt))
+        return d, al
+
+    for p, res, exc in H.explore(body):
+        if exc is not None:
+            H.fail('C13:mixed:exception:' + type(exc).__name__, 'raised %r' % (exc,), lambda m_: case(m_))
+            continue
+        d, al = res
+        H.claim(core.lift(d) == ref, 'C13:mixed:not-minimal', 'for sequences mixing strings and integers the distance differs from the true minimum',
+                lambda m_: case(m_, got=mv(m_, d), ref=core.model_value(m_, ref)))
+        proj_t = [b for a, b in al if b is not None]
+        if len(proj_t) != m or any(x is not y and (x.kind != y.kind or x.coerced) for x, y in zip(proj_t, tgt)):
+            H.fail('C13:mixed:projection', 'the alignment does not reproduce the target sequence (integers come back as strings)', lambda m_: case(m_))
+        H.witness(lambda m_: case(m_, expect=mv(m_, d)))
+    return H.result()
+
+
 def run_task(task, patches=None):
     H = Harness(patches)
     sa = H.load('pero_ocr.sequence_alignment')
     fn = task['fn']
+    if fn == 'mixed':
+        return _run_mixed(H, sa, task)
     if fn == 'aggregate':
         return _run_aggregate(H, task)
     if fn == 'summary':
